@@ -96,8 +96,8 @@ Print Assumptions content_fuel_suffices.
 
 (* The loader asks its store / transport only for documents named by the
    caller or, transitively, by import / include references. *)
-Theorem loader_fetches_only_named : forall fuel w root u,
-  In u (load fuel w [root] []) -> named w [root] u.
+Theorem loader_fetches_only_named : forall fuel j w root u,
+  In u (load fuel j w [root] []) -> named j w [root] u.
 Proof. exact load_named. Qed.
 Print Assumptions loader_fetches_only_named.
 
@@ -109,29 +109,56 @@ Theorem foreign_namespace_names_nothing : forall c,
 Proof. exact foreign_ref_of. Qed.
 Print Assumptions foreign_namespace_names_nothing.
 
-(* Putting such look-alikes anywhere into any document of the world changes
-   neither what the document names nor what the loader fetches. *)
-Theorem lookalikes_change_no_fetch : forall fuel (w1 w2 : world) root,
-  (forall u, refs_at w1 u = refs_at w2 u) -> load fuel w1 [root] [] = load fuel w2 [root] [].
-Proof. intros; apply load_ext; assumption. Qed.
-Print Assumptions lookalikes_change_no_fetch.
+(* A reference without a location attribute names nothing: the namespace of
+   an import is an identifier, not an address. *)
+Theorem reference_without_location_names_nothing : forall c,
+  c_sloc c = None -> c_loc c = None -> ref_of c = None.
+Proof. exact no_location_ref_of. Qed.
+Print Assumptions reference_without_location_names_nothing.
 
-Theorem lookalike_names_nothing_in_context : forall a c b,
-  fst (c_name c) <> ns_xsd -> fst (c_name c) <> ns_wsdl -> refs (a ++ c :: b) = refs (a ++ b).
+(* References resolve against the URL of the document that CONTAINS them:
+   what document u names depends on urljoin at base u only. *)
+Theorem references_resolve_against_container : forall j1 j2 w u,
+  (forall r, j1 u r = j2 u r) -> refs_at j1 w u = refs_at j2 w u.
+Proof. exact refs_at_join_local. Qed.
+Print Assumptions references_resolve_against_container.
+
+(* The fetches of a load are a function of the documents that load names and
+   of nothing else: worlds that agree on what the named documents name are
+   loaded alike, whatever else they contain (documents seen by earlier loads
+   in the process, decoys at other locations, look-alike elements). *)
+Theorem load_depends_on_named_documents_only : forall fuel j1 w1 j2 w2 root,
+  (forall u, named j1 w1 [root] u -> refs_at j1 w1 u = refs_at j2 w2 u) ->
+  load fuel j1 w1 [root] [] = load fuel j2 w2 [root] [].
+Proof. intros fuel j1 w1 j2 w2 root H. apply load_local. exact H. Qed.
+Print Assumptions load_depends_on_named_documents_only.
+
+Theorem lookalike_names_nothing_in_context : forall j base a c b,
+  fst (c_name c) <> ns_xsd -> fst (c_name c) <> ns_wsdl ->
+  refs j base (a ++ c :: b) = refs j base (a ++ b).
 Proof. exact refs_insert_foreign. Qed.
 Print Assumptions lookalike_names_nothing_in_context.
 
-(* non-vacuity: a schema with a real xs:include and a vendor doc:include *)
+(* non-vacuity: a schema at URL 1 (directory A) includes, by the relative
+   reference 5, a schema in directory B (URL 21), which includes by the SAME
+   relative text 6 its neighbour (URL 22, not URL 23 = the includer's
+   neighbour); a vendor doc:include, an xs:import inside appinfo and an import
+   without location name nothing *)
+Definition lk_join : joiner := fun base r =>
+  (if N.eqb base 1 then (if N.eqb r 5 then 21 else 23)
+   else if N.eqb base 21 then 22 else 0)%N.
 Definition lk_schema : list cand :=
-  [mkCand [(ns_xsd, l_schema)] (7, l_include) (Some 20) None;           (* <doc:include schemaLocation=20> *)
-   mkCand [(ns_xsd, l_schema)] (ns_xsd, l_include) (Some 21) None;      (* <xs:include schemaLocation=21>  *)
-   mkCand [(ns_xsd, l_schema); (ns_xsd, 9); (ns_xsd, 10)] (ns_xsd, l_import) (Some 22) None]%N.
-                                                                        (* xs:import inside annotation/appinfo *)
-Example lk_schema_names : refs lk_schema = [21%N].
+  [mkCand [(ns_xsd, l_schema)] (7, l_include) (Some (LAbs 20)) None;             (* <doc:include schemaLocation=20> *)
+   mkCand [(ns_xsd, l_schema)] (ns_xsd, l_include) (Some (LRel 5)) None;         (* <xs:include schemaLocation="b/t.xsd"> *)
+   mkCand [(ns_xsd, l_schema)] (ns_xsd, l_import) None None;                     (* <xs:import namespace=...> *)
+   mkCand [(ns_xsd, l_schema); (ns_xsd, 9); (ns_xsd, 10)] (ns_xsd, l_import) (Some (LAbs 24)) None]%N.
+Definition lk_world : world := fun u =>
+  (if N.eqb u 1 then Some lk_schema
+   else if N.eqb u 21 then Some [mkCand [(ns_xsd, l_schema)] (ns_xsd, l_include) (Some (LRel 6)) None]
+   else if N.eqb u 22 then Some [] else if N.eqb u 23 then Some [] else None)%N.
+Example lk_schema_names : refs lk_join 1%N lk_schema = [21%N].
 Proof. reflexivity. Qed.
-Example lk_load :
-  load 8 (fun u => if N.eqb u 1 then Some lk_schema else if N.eqb u 21 then Some [] else None) [1%N] []
-  = [1; 21]%N.
+Example lk_load : load 8 lk_join lk_world [1%N] [] = [1; 21; 22]%N.
 Proof. reflexivity. Qed.
 
 (* The gate is what protects: the same reader with the feature ON does open
